@@ -131,6 +131,16 @@ def run(tier, seed, replay=None):
         texts.append((rng.choice(DIALECTS), ''.join(rng.choice(pool) for _ in range(rng.randint(1, 25)))))
     rng.shuffle(texts_extra)
     texts += texts_extra[: (600 if tier == 'quick' else 6000)]
+    # sentences derived from each dialect's own grammar (every statement kind, every combination of optional clauses)
+    import gramgen
+    for d in DIALECTS:
+        try:
+            gs = gramgen.covering(rng, d, 2 if tier == 'quick' else 8) + gramgen.statements(rng, d, 600 if tier == 'quick' else 12000)
+        except Exception as e:
+            broken.append(BrokenTie(f'the grammar of the {d} parser could not be read for sentence generation', f'{type(e).__name__}: {e}'))
+            gs = []
+        stats[f'{d}:grammar_sentences'] = len(gs)
+        texts += [(d, s) for s in gs]
     if replay:
         rp = json.loads(open(replay).read())
         texts = [(rp.get('dialect', 'mindsdb'), rp['text'])] if 'text' in rp else []
